@@ -276,7 +276,11 @@ func runC14(c *core.Ctx) {
 		cs.Eval(1)
 		cs.Distinct(uint64(bits))
 		if bits == 0x80000000 {
-			cs.Check(err == nil && len(b) == 20 && b[17] == 0 && b[18] == 0 && b[19] == 0, "negative-zero", func() core.W { return core.W{"error": errStr(err), "octets": mon.Hex(b, 20)} })
+			// -0 is not negative; but rejecting it would not contradict the statement either: accept
+			// "encoded as 0" as well as "error and no octets", nothing else
+			okZero := err == nil && len(b) == 20 && b[17] == 0 && b[18] == 0 && b[19] == 0
+			okRejected := err != nil && len(b) == 0
+			cs.Check(okZero || okRejected, "negative-zero", func() core.W { return core.W{"error": errStr(err), "octets": mon.Hex(b, 20)} })
 			return
 		}
 		cs.Check(err != nil && len(b) == 0, "negative/accepted", func() core.W { return core.W{"bitrate": vdump(x), "octets": mon.Hex(b, 20)} })
